@@ -156,7 +156,7 @@ theorem overflow_load_gen (cfg : Cfg) (hc : cfg.flushAtCount = false) (codec : C
     exact hf
   -- reading it back
   have hsz : sizeSum big < 2 ^ 31 + 2 ^ 17 := by rw [hbigsz]; omega
-  have hblk := readNextBlock_encodeBlock_any cfg codec crc big [] hsz
+  have hblk := readNextBlockCore_encodeBlock_any cfg codec crc big [] hsz
   rw [List.append_nil, hbiglen, hmod, parseEntries_zero] at hblk
   intro m n hload
   rw [hfile] at hload
@@ -165,13 +165,19 @@ theorem overflow_load_gen (cfg : Cfg) (hc : cfg.flushAtCount = false) (codec : C
   simp only at hload
   rw [drop_dataStart hdr2 [] _ hn2, List.nil_append] at hload
   unfold readBlocks at hload
-  -- either the block is refused (leftover payload) or it yields no entries
+  -- the block is refused (leftover payload), taken for the end of the data, or yields no entries
+  have hstop : ∀ (hb' : readNextBlock cfg codec.toDecoder crc (encodeBlock codec crc big) = .eof), False := by
+    intro hb'
+    rw [readBlocksP_eof _ _ _ _ hb'] at hload
+    simp [replay] at hload
   cases hfp : finishParse cfg (encodeEntries big).length (.ok []) with
   | error e =>
     rw [hfp] at hblk
-    have hb' : readNextBlock cfg codec.toDecoder crc (encodeBlock codec crc big) = .err e := hblk
-    rw [readBlocksP_err' _ _ _ _ e hb'] at hload
-    simp at hload
+    have hb' : readNextBlockCore cfg codec.toDecoder crc (encodeBlock codec crc big) = .err e := hblk
+    rcases readNextBlock_of_core_err hb' with h1 | h1
+    · rw [readBlocksP_err' _ _ _ _ e h1] at hload
+      simp at hload
+    · exact hstop h1
   | ok es =>
     have hes : es = [] := by
       unfold finishParse at hfp
@@ -181,8 +187,10 @@ theorem overflow_load_gen (cfg : Cfg) (hc : cfg.flushAtCount = false) (codec : C
       · cases hfp; rfl
     subst hes
     rw [hfp] at hblk
-    have hb' : readNextBlock cfg codec.toDecoder crc (encodeBlock codec crc big) = .ok [] [] := hblk
-    rw [readBlocksP_ok _ _ _ _ [] [] hb', readBlocksP_nil] at hload
-    simp [replay] at hload
+    have hb' : readNextBlockCore cfg codec.toDecoder crc (encodeBlock codec crc big) = .ok [] [] := hblk
+    rcases readNextBlock_cases_of_core_ok hb' with h1 | h1
+    · rw [readBlocksP_ok _ _ _ _ [] [] h1, readBlocksP_nil] at hload
+      simp [replay] at hload
+    · exact hstop h1
 
 end Hv.Storage
